@@ -197,6 +197,14 @@ def natural(tier):
         out.append((f"codec-name/proto{proto}", asm(*pre, ("GLOBAL", ("_codecs", "encode")), sbu("text"), sbu("vp_canary_codec"), "TUPLE2", "REDUCE", "STOP")))
         out.append((f"marshal-loads/proto{proto}", asm(*pre, ("GLOBAL", ("marshal", "loads")), ("SHORT_BINBYTES", marshal.dumps(compile("1", "<vp>", "eval"))),
                                                          "TUPLE1", "REDUCE", "STOP")))
+    # globals on fickling's own ML allowlist whose packages are not installed here, a URL-fetching call, a large input
+    for m, n in (("llava.train.train_dpo_ori", "TrainingArguments"), ("h4.training.config", "DPOTrainingArguments"),
+                 ("simpletransformers.config.model_args", "T5Args")):
+        out.append((f"allowlisted-absent/{m}/GLOBAL", asm(("GLOBAL", (m, n)), "EMPTY_TUPLE", "REDUCE", "STOP")))
+        out.append((f"allowlisted-absent/{m}/SG", asm(("PROTO", 4), sbu(m), sbu(n), "STACK_GLOBAL", "EMPTY_TUPLE", "NEWOBJ", "STOP")))
+        out.append((f"allowlisted-absent/{m}/INST", asm("MARK", ("INST", (m, n)), "STOP")))
+    for callee in (("urllib.request", "urlopen"), ("urllib.request", "urlretrieve"), ("torch.hub", "download_url_to_file"), ("requests", "get")):
+        out.append((f"url/{callee[1]}", asm(("GLOBAL", callee), sbu("http://127.0.0.1:9/vp-second-stage"), "TUPLE1", "REDUCE", "STOP")))
     out.append(("live-obj", asm("MARK", ("GLOBAL", ("vp_live", "ghost")), "OBJ", "STOP")))
     out.append(("live-inst", asm("MARK", ("INST", ("vp_live", "ghost")), "STOP")))
     out.append(("live-newobj", asm(("GLOBAL", ("vp_live", "ghost")), "EMPTY_TUPLE", "NEWOBJ", "STOP")))
@@ -223,6 +231,53 @@ def _nat(item):
     out = e1.Out()
     out.stats.inc("natural_and_corrupted_inputs")
     inspect(data, out, tag, len(data))
+    return out
+
+
+def _big(item):
+    """A large input delivered through non-seekable streams (library and CLI stdin): nothing may be written anywhere."""
+    import fickling.fickle as fk
+    from fickling import cli
+    from fickling.analysis import check_safety
+
+    from .c06 import RawNonSeekable
+
+    (size,) = item
+    out = e1.Out()
+    data = pickle.dumps(b"x" * size, protocol=4)
+    thunks = {
+        "Pickled.load(non-seekable)": lambda: fk.Pickled.load(RawNonSeekable(data)),
+        "StackedPickle.load(non-seekable)": lambda: fk.StackedPickle.load(io.BufferedReader(RawNonSeekable(data))),
+        "check_safety(non-seekable)": lambda: check_safety(fk.Pickled.load(RawNonSeekable(data))),
+    }
+
+    class _In:
+        def __init__(self):
+            self.buffer = io.BufferedReader(RawNonSeekable(data))
+
+    def via_cli():
+        old = sys.stdin
+        sys.stdin = _In()
+        try:
+            with redirect_stdout(io.StringIO()), redirect_stderr(io.StringIO()):
+                path, report = scratch_file()
+                MONITOR.allowed_write = {report}
+                cwd = os.getcwd()
+                os.chdir(_WD[0])
+                try:
+                    return cli.main(["fickling", "--check-safety", "--json-output", report])
+                finally:
+                    os.chdir(cwd)
+        finally:
+            sys.stdin = old
+
+    thunks["cli-check-safety(stdin)"] = via_cli
+    for name, th in thunks.items():
+        outcome, events, newmods = MONITOR.run(th)
+        out.stats.inc("entry_point_calls")
+        for ev in events:
+            out.violate(PROP, f"C01|{name}|{ev[0]}", f"{name} on a {size}-byte input: forbidden effect {ev} (call {outcome})",
+                        {"engine": "E4", "entry_point": name, "input": f"{size}-byte bytes pickle"}, 1)
     return out
 
 
@@ -276,6 +331,7 @@ def check(tier):
             nseeds += 1
             items += [(f"{tag}:{c}", d) for c, d in corruptions(data)]
         e3.pmap(_nat, items, rep, chunksize=32)
+        e3.pmap(_big, [(5 * 1024 * 1024,), (4 * 1024 * 1024 + 100,), (70000,)], rep, chunksize=1)
         rep.set("corruption_seeds", nseeds)
     rep.add("evaluations", rep.cov.get("entry_point_calls", 0))
     rep.add("traces_validated_against_impl", rep.cov.get("natural_and_corrupted_inputs", 0))
